@@ -101,11 +101,39 @@ func tupleResultUsed(call ssa.Value, idx int) bool {
 func (c *Ctx) RawRead() []core.Ob {
 	var obs []core.Ob
 	for _, fn := range c.Funcs() {
-		k := 0
+		k, kc := 0, 0
 		for _, b := range fn.Blocks {
 			for _, in := range b.Instrs {
 				call, ok := in.(*ssa.Call)
 				if !ok {
+					continue
+				}
+				// io.Copy out of an io.LimitReader stops quietly at the source's EOF: it is a read of
+				// "up to n bytes" like a bare Read, and a full read only if its count is compared with n
+				if calleeName(call.Common()) == "io.Copy" && len(call.Call.Args) == 2 {
+					src := call.Call.Args[1]
+					if mi, isMI := src.(*ssa.MakeInterface); isMI {
+						src = mi.X
+					}
+					limited := false
+					if lc, isCall := src.(*ssa.Call); isCall && calleeName(lc.Common()) == "io.LimitReader" {
+						limited = true
+					}
+					if pt, isPtr := src.Type().(*types.Pointer); isPtr && types.TypeString(pt.Elem(), nil) == "io.LimitedReader" {
+						limited = true
+					}
+					if limited {
+						kc++
+						ob := core.Ob{Rule: "R-RAWREAD", Key: fmt.Sprintf("%s#LimitedCopy%d", core.FnName(fn), kc), Pos: c.P.Pos(call.Pos()),
+							Func: core.FnName(fn), Armed: !informationalPkg(fn), Status: core.OK,
+							Want: "io.Copy from an io.LimitReader reports success at the source's end of file however little it copied: its count is looked at (or io.CopyN / io.ReadFull is used)"}
+						if !tupleResultUsed(call, 0) {
+							ob.Status, ob.Got = core.Violated, "the number of bytes copied is discarded: a payload cut short is taken for a complete one"
+						} else {
+							ob.Got = "count result is used"
+						}
+						obs = append(obs, ob)
+					}
 					continue
 				}
 				buf, ok := rawReadCall(call.Common())
